@@ -10,6 +10,7 @@
 pub mod alloc;
 pub mod ctx;
 pub mod fmt;
+pub mod iterlaws;
 pub mod pan;
 pub mod softfloat;
 
